@@ -1,4 +1,5 @@
 #![feature(pattern)]
+#![feature(allocator_api)]
 #![allow(unused_imports, dead_code, unused_variables, unused_mut, non_snake_case, unreachable_code, unused_parens, unused_braces)]
 use vstd::prelude::*;
 use vstd::string::*;
